@@ -8,12 +8,11 @@ import text_streams as ts
 
 ID = 'C13'
 LEAN_MODULE = 'Proofs.C13'
-THEOREMS_PLANNED = ['Fsic.C13.' + n for n in [
-    'matchAt_consumes', 'scanGo_spans', 'scanTerms_total_spans', 'splitGo_yields_complete',
-    'fmtPieces_auto', 'format_safe', 'format_safe_arity', 'format_fails_manual_field', 'format_fails_empty_field',
-    'format_drops_escaped_term', 'parse_error_classes', 'parseBody_internal_only_format_or_unpack',
+THEOREMS = ['Fsic.C13.' + n for n in [
+    'matchAt_consumes', 'scanGo_spans', 'scanTerms_spans', 'split_yields_checked', 'unterminated_fence_swallows',
+    'format_safe', 'format_safe_arity', 'format_fails_manual_field', 'format_fails_empty_field',
+    'format_drops_escaped_term', 'unpack_fails_without_equals', 'parseBody_errors', 'parse_error_classes',
     'parseScript_stops_at_first_error', 'pyInt_accepts']]
-THEOREMS = []
 RULE = ('(a) every string up to length L over the 26-character driving alphabet of the property (quick L=4, thorough '
         'L=5) plus lengths L+1..6 over six reduced alphabets chosen for regex interactions, enumerated exhaustively; '
         '(b) random C01-grammar programs (six generator configurations: verbatim fragments, named periods, LHS '
@@ -236,11 +235,11 @@ def run(ctx, rep):
     tasks = []
     for t in ts.exhaustive_tasks(lc.ALPHABET, 0, L, plen=2):
         tasks.append(('c13:texts', ('exhaustive', t, False, False, oo)))
-    for alpha, hi in ts.REDUCED:
+    for alpha, hi in (ts.REDUCED[:4] if quick else ts.REDUCED):
         a = list(alpha)
         for t in ts.exhaustive_tasks(a, L + 1, 5 if quick else hi, plen=2):
             tasks.append(('c13:texts', ('reduced', t, False, False, oo)))
-    n_prog = (400 if quick else 6000) * ctx.scale
+    n_prog = (300 if quick else 6000) * ctx.scale
     per = 25
     tag = f'{ctx.seed}:grammar'
     for first in range(0, n_prog, per):
@@ -248,7 +247,7 @@ def run(ctx, rep):
     stride = 32
     for index in range(stride):
         tasks.append(('c13:small', (f'{ctx.seed}:small', index, stride, 3 if quick else 11, oo)))
-    n_mut = (1500 if quick else 50000) * ctx.scale
+    n_mut = (1000 if quick else 50000) * ctx.scale
     for first in range(0, n_mut, 100):
         tasks.append(('c13:mutants', (f'{ctx.seed}:mut', first, min(100, n_mut - first), oo)))
     tasks.append(('c13:texts', ('findings', FINDING_INPUTS, False, False, oo)))
